@@ -46,6 +46,17 @@ class SimRaw(io.RawIOBase):
     def readable(self) -> bool:
         return True
 
+    def seekable(self) -> bool:
+        return True
+
+    def tell(self) -> int:
+        return self.pos
+
+    def seek(self, offset: int, whence: int = 0) -> int:
+        base = {0: 0, 1: self.pos, 2: len(self.data)}[whence]
+        self.pos = max(0, min(len(self.data), base + offset))
+        return self.pos
+
     def readinto(self, b: Any) -> int:
         self.reads += 1
         if self.fail_at is not None and self.reads >= self.fail_at:
@@ -169,6 +180,7 @@ def gen_cell(rseed: int, tier: str) -> Dict[str, Any]:
         "fname": f.choice(["schema.dbml", "my schema.dbml", "schéma.dbml", "s.txt"]),
         "eol": f.choice(["\n", "\n", "\n", "\n", "\n", "\r\n", "\r\n", "\r"]),
         "positional": g.random() < 0.25,
+        "shared_handle": f.random() < 0.3,
         "pristine": {str(a): E1.PREP["pristine"][f"{doc}:{a}"] for a in (0, 1)},
     }
     if f.random() < (0.2 if tier == "thorough" else 0.15):
@@ -251,13 +263,38 @@ def execute_cell(cell: Dict[str, Any], tmp: str) -> Dict[str, Any]:
                 return builtins.open(path, encoding=enc)
             return fs.text(data, enc)
 
+        shared: Dict[str, Any] = {"f": None}
+
+        def handle() -> Any:
+            """The caller's own open file: with `shared_handle` one handle serves both file-object routes
+            (rewound in between), as a caller who keeps the file open would do."""
+            if not cell.get("shared_handle"):
+                return file_obj()
+            if shared["f"] is None:
+                shared["f"] = file_obj()
+                stats["fault:shared-file-handle"] = 1
+            else:
+                shared["f"].seek(0)
+            return shared["f"]
+
+        class _keep:
+            def __init__(self, f: Any) -> None:
+                self.f = f
+
+            def __enter__(self) -> Any:
+                return self.f
+
+            def __exit__(self, *a: Any) -> None:
+                if not cell.get("shared_handle"):
+                    self.f.close()
+
         def call(route: str) -> Any:
             if route == "ctor-str":
                 return PyDBML(stext, *pos, **kw)
             if route == "ctor-path":
                 return PyDBML(pathlib.Path(path), *pos, **kw)
             if route == "ctor-file":
-                with file_obj() as f:
+                with _keep(handle()) as f:
                     return PyDBML(f, *pos, **kw)
             if route == "parse-static":
                 return PyDBML.parse(stext, *pos, **kw)
@@ -271,7 +308,7 @@ def execute_cell(cell: Dict[str, Any], tmp: str) -> Dict[str, Any]:
             if route == "parse_file-path":
                 return PyDBML.parse_file(pathlib.Path(path))
             if route == "parse_file-file":
-                with file_obj() as f:
+                with _keep(handle()) as f:
                     return PyDBML.parse_file(f)
             raise ValueError(route)
 
@@ -324,6 +361,11 @@ def execute_cell(cell: Dict[str, Any], tmp: str) -> Dict[str, Any]:
                 if res.allow_properties is not False or res.sql_renderer.__name__ != "DefaultSQLRenderer":
                     viol("route:non-default-options:" + route, ctx)
             stats["ok:route-equals-reference"] = stats.get("ok:route-equals-reference", 0) + 1
+        if shared["f"] is not None:
+            try:
+                shared["f"].close()
+            except Exception:
+                pass
         for kind in cell["wrong_types"]:
             obj = wrong_object(kind, tmp)
             try:
@@ -445,7 +487,7 @@ class E2Driver:
         for k, simple in (("wrong_types", []), ("bom", False), ("ap", False), ("rend", "default"),
                           ("chunk", 1 << 20), ("bufsize", 8192), ("eio_at", None), ("real_fs", False),
                           ("fname", "schema.dbml"), ("file_encoding_by_caller", "utf8"), ("default_encoding", "utf-8"),
-                          ("eol", "\n"), ("positional", False)):
+                          ("eol", "\n"), ("positional", False), ("shared_handle", False)):
             if cell.get(k) != simple:
                 c = dict(cell)
                 c[k] = simple
